@@ -1086,3 +1086,51 @@ Qed.
 (* a zero-length SDU: no packet, the sequence number still advances (one number per SDU) *)
 Lemma send_iso_sdu_empty h maxp seq : 0 <= seq -> send_iso_sdu h maxp seq [] = (Some [], (seq + 1) mod 65536).
 Proof. intros H. unfold send_iso_sdu. cbn [iso_loop length]. rewrite land_ffff by lia. reflexivity. Qed.
+
+(* ---- several connections sharing one queue: what happens to OTHER handles cannot disturb h ---- *)
+Lemma flushes_false_iff h ops :
+  flushes h ops = false <-> Forall (fun o => match o with Flush h' => h' <> h | _ => True end) ops.
+Proof.
+  induction ops as [|o r IH]; cbn [flushes]; [split; [constructor|reflexivity]|].
+  destruct o as [p h'|h'|n h']; rewrite ?IH.
+  - split; [intros H; constructor; [exact I|exact H]|intros H; inversion H; assumption].
+  - rewrite orb_false_iff, Z.eqb_neq, IH.
+    split; [intros [H1 H2]; constructor; assumption|intros H; inversion H; split; assumption].
+  - split; [intros H; constructor; [exact I|exact H]|intros H; inversion H; assumption].
+Qed.
+
+(* AT EVERY POINT of the drain (not only at the end), for any history in which h itself is not
+   flushed - whatever is enqueued, completed or FLUSHED for other handles in between - what
+   the controller was handed for h is a prefix of h's fragment list, in order *)
+Theorem queue_prefix_in_order maxf ops h (pk : list acl) d :
+  enqueued h ops = map (fun i => (Z.of_nat i, h)) (seq 0 (length pk)) ->
+  flushes h ops = false ->
+  exists k, map (fun ph => nth (Z.to_nat (fst ph)) pk d)
+                (filter (is_handle h) (snd (q_run (q_init maxf) ops))) = firstn k pk.
+Proof.
+  intros Henq Hfl. pose proof (fifo_per_handle h ops (q_init maxf) Hfl) as H.
+  destruct (q_run (q_init maxf) ops) as [s' sent]. cbn [fst snd] in *.
+  cbn [q_init q_wait filter app] in H. rewrite Henq in H.
+  exists (length (filter (is_handle h) sent)).
+  assert (Hs : filter (is_handle h) sent =
+               firstn (length (filter (is_handle h) sent)) (map (fun i => (Z.of_nat i, h)) (seq 0 (length pk)))).
+  { rewrite <- H. rewrite firstn_app, Nat.sub_diag, firstn_all. cbn [firstn]. rewrite app_nil_r. reflexivity. }
+  rewrite Hs at 1. rewrite <- firstn_map, map_map. cbn [fst].
+  f_equal. rewrite <- (map_nth_seq pk d) at 2. apply map_ext. intros i. rewrite Nat2Z.id. reflexivity.
+Qed.
+
+(* the same with the other connections' activity spelled out: a history made of h's enqueues
+   and of operations on other handles (including their flushes at any position) *)
+Theorem queue_other_connections_harmless maxf ops h (pk : list acl) d :
+  enqueued h ops = map (fun i => (Z.of_nat i, h)) (seq 0 (length pk)) ->
+  Forall (fun o => match o with Flush h' => h' <> h | _ => True end) ops ->
+  (exists k, map (fun ph => nth (Z.to_nat (fst ph)) pk d)
+                 (filter (is_handle h) (snd (q_run (q_init maxf) ops))) = firstn k pk) /\
+  (filter (is_handle h) (q_wait (fst (q_run (q_init maxf) ops))) = [] ->
+   map (fun ph => nth (Z.to_nat (fst ph)) pk d)
+       (filter (is_handle h) (snd (q_run (q_init maxf) ops))) = pk).
+Proof.
+  intros Henq Hall. apply flushes_false_iff in Hall. split.
+  - apply queue_prefix_in_order; assumption.
+  - intros Hw. apply queue_hands_over_fragments; assumption.
+Qed.
